@@ -1,4 +1,5 @@
 import Crusta.Model.Cli
+import Crusta.Gen.Problem
 import Crusta.Proofs.Oracle
 import Crusta.Proofs.CliCompose
 import Crusta.Proofs.CliFile
@@ -253,5 +254,43 @@ theorem cli_on_readable_apx_file (bs : List UInt8) (fw : IO.ApxFw) (hfile : IO.r
     ∃ p, entryProg (dispatchSolver t σ) cfg (apxStore fw).view (entryOf t cert [a]) = some p ∧
       wp False p w (fun ans _ => ProblemOK t σ (apxStore fw).g (entryOf t cert [a]) ans) :=
   cli_on_apx_file bs fw hfile s t σ hread enc cfg henc cert argStr a harg w hb hfuel
+
+/-- **the grammar is the one in the source**: the tables below are regenerated from
+`src/aa/problem.rs` on every run (`tools/gen_from_source.py`: variants of the two enums in
+declaration order, match arms of the two `TryFrom<&str>` implementations, which must still compare
+the ASCII-lowercased string, and `read_problem_string` must still split at the first hyphen); the
+Lean grammar the theorems above are about has exactly these variants, in this order, and exactly
+these spellings — a problem added, removed, renamed or re-spelled in the source breaks this theorem -/
+theorem grammar_is_the_source :
+    allSems.map semName = Gen.semanticsVariants ∧ allTasks.map taskName = Gen.queryVariants ∧
+    allSems.map (fun σ => (semLower σ, semName σ)) = Gen.semanticsArms ∧
+    allTasks.map (fun t => (taskLower t, taskName t)) = Gen.queryArms ∧
+    (∀ s σ, semOf s = some σ ↔ (lower s, semName σ) ∈ Gen.semanticsArms) ∧
+    (∀ s t, queryOf s = some t ↔ (lower s, taskName t) ∈ Gen.queryArms) := by
+  have h3 : allSems.map (fun σ => (semLower σ, semName σ)) = Gen.semanticsArms := by decide
+  have h4 : allTasks.map (fun t => (taskLower t, taskName t)) = Gen.queryArms := by decide
+  refine ⟨by decide, by decide, h3, h4, ?_, ?_⟩
+  · intro s σ
+    rw [← h3]
+    constructor
+    · intro h
+      have := semOf_some s σ h
+      rw [this]
+      cases σ <;> decide
+    · intro h
+      simp only [allSems, List.map, List.mem_cons, Prod.mk.injEq, List.mem_nil_iff, or_false] at h
+      unfold semOf
+      cases σ <;> simp_all [semName, semLower] <;> decide
+  · intro s t
+    rw [← h4]
+    constructor
+    · intro h
+      have := queryOf_some s t h
+      rw [this]
+      cases t <;> decide
+    · intro h
+      simp only [allTasks, List.map, List.mem_cons, Prod.mk.injEq, List.mem_nil_iff, or_false] at h
+      unfold queryOf
+      cases t <;> simp_all [taskName, taskLower] <;> decide
 
 end Crusta.C05
